@@ -111,6 +111,27 @@ Theorem C32_no_panic : forall c e progs sched tid,
 Proof. exact no_panic. Qed.
 Print Assumptions C32_no_panic.
 
+(** The unpaid field holds a *big.Int.  (1) the field of an existing peer points
+    to an allocated cell that holds its balance; (2) NO step ever writes to an
+    allocated cell: a cell keeps its value along every continuation (published
+    big.Ints are immutable); (3) whenever the field changes it changes to a cell
+    that was not allocated before (a fresh big.Int per Credit / NotifyPayment /
+    creation); (4) hence the read Reserve makes AFTER releasing the lock, through
+    the pointer it copied under the lock, returns the balance at the time of the
+    copy ([reg] is set from the balance at [PRead]) and conflicts with no write. *)
+Theorem C32_published_bigint_immutable : forall c e progs sched,
+  let s := run c sched (st0 e progs) in
+  (forall p, match ptr (shs s) p with
+             | Some a => unpaid (shs s) p <> None /\ heap (shs s) a = unpaid (shs s) p
+             | None => unpaid (shs s) p = None
+             end) /\
+  (forall a v more, heap (shs s) a = Some v -> heap (shs (run c more s)) a = Some v) /\
+  (forall w p, ptr (shs (step c s w)) p <> ptr (shs s) p ->
+     exists a, ptr (shs (step c s w)) p = Some a /\ heap (shs s) a = None) /\
+  (forall tid l, cur (thr s tid) = Some l -> l_pt l = PDeref -> heap (shs s) (rptr l) = Some (reg l)).
+Proof. exact heap_facts. Qed.
+Print Assumptions C32_published_bigint_immutable.
+
 (** ---- the code as found (Reserve reads without the lock): F-reserve-race ---- *)
 Definition c_found : cfg := {| threshold := 100; tolerance := 100; chancap := 1000; reserve_locks := false |}.
 Definition e_w : env := {| retr := fun _ => 0; transf := fun _ => 0; avail := 4; fails := fun _ => false |}.
@@ -144,7 +165,8 @@ Example C32_hyps_satisfiable :
   rev (pays (shs s)) = [(0%N, 5); (0%N, 5)] /\
   length (acc (shs s)) = 12%nat /\
   map d_res (done (thr s 2)) = [RLow; ROk; ROk] /\
-  puts (shs s) = [(1%N, (0%N, 3))].
+  puts (shs s) = [(1%N, (0%N, 3))] /\
+  ptr (shs s) 0%N = Some 4%N /\ heap (shs s) 4%N = Some 7 /\ heap (shs s) 0%N = Some 0 /\ next (shs s) = 5%N.
 Proof.
   cbv zeta. split; [intros q; cbn; discriminate|]. split; [reflexivity|]. split.
   - intros tid. unfold progs_x.
